@@ -35,7 +35,9 @@ PROPS = {
     },
     "C02": {
         "groups": [{"name": "json", "tags": "verif", "run": "^VH_C02_", "flags": {"harness-timeout": 280},
-                    "quick": {"params": "strlen=2"}, "thorough": {"params": "strlen=3", "harness-timeout": 3000}}],
+                    "quick": {"params": "strlen=2"}, "thorough": {"params": "strlen=3", "harness-timeout": 3000}},
+                   {"name": "net", "tags": "verif", "run": "^VH_C02N_", "flags": {"harness-timeout": 280, "no-stub": "^\\(\\*?net\\."},
+                    "quick": {"params": "pfxsym=2"}, "thorough": {"params": "pfxsym=4", "harness-timeout": 3000}}],
         "cross_solver": {"run": "^VH_C02_(ints|floats|float_precision|time|duration|hex)$"},
         "level": "model_checking",
         "bounds": {
@@ -43,7 +45,8 @@ PROPS = {
             "numbers": "every integer width over its full range: the token is the decimal rendering of the correctly sign-/zero-extended value (strconv digits trusted); float32/float64 over all bit patterns: NaN/+Inf/-Inf strings, format choice and exponent clean-up equal to encoding/json's rule transcribed in the harness (float32 cut-offs evaluated in float32), explicit precision -> 'f' with that precision",
             "time": "format dispatch for the five TimeFieldFormat classes; integer and float durations, TimeDiff clamping; Times/Durs element-wise",
             "relational": "the same symbolic value through Event, Context, Array, Dict, Fields(slice), Fields(map), pointer arm and slice variant for string, bool, every integer width, float32/64 (symbolic precision), time, duration (symbolic unit/flags)",
-            "outside": "decimal digit correctness of strconv and layout formatting of package time are trusted; IP/MAC/prefix text forms are produced by package net (stubbed); strings beyond the bound",
+            "network": "group 'net' executes net.IP.String / net.IPNet.String / net.HardwareAddr.String and net/netip's formatting from their real SSA (no stub): IPv4 over all 2^32 addresses in 4-byte and IPv4-mapped 16-byte form through encoder/Event/Context/Array/Fields; IPv6 zero-run compression over all 256 zero/non-zero group patterns x one shared symbolic group value, and digits with two adjacent symbolic groups at every position; MAC of 6 and 8 symbolic octets; IPv4 prefixes /0../32 x 2 (thorough 4) symbolic octets, IPv6 prefixes /0../128 with one symbolic group; references: dotted decimal, RFC 5952, CIDR transcribed in the harness",
+            "outside": "decimal digit correctness of strconv and layout formatting of package time are trusted; non-canonical masks, zones, addresses of other lengths; strings beyond the bound",
         },
         "assumptions": COMMON_ASSUME + STR_STUBS,
     },
